@@ -24,3 +24,31 @@ Theorem C08_trace_explicit : forall u P lg sol Sx,
   valid (table_provider u) P Sx [] -> has_root_firsts (table_provider u) P Sx ->
   forall r f, In r (pr_reqs P) -> first_choice (table_provider u) r = Some f -> In f sol.
 Proof. exact sat_log_explicit. Qed.
+
+(* ---- Solver::decide itself (Cdcl/Decide.v: the scan over requires_clauses in
+   IndexMap order, the first undecided candidate per clause, the
+   explicit / activity / candidate-count ranking; compared with the
+   implementation at every call, the activity scores computed in binary32) ---- *)
+From Resolvo Require Import Cdcl.DecideProofs.
+
+(* for every clause database of well-formed Requires clauses in which the root's
+   requirements come first, every assignment that installs the root and EVERY
+   activity comparison: what decide proposes is a legal decision of the abstract
+   machine -- rule D1, and rule D2: a requirement of the root as long as one is
+   open.  The theorems above about runs of the machine therefore apply to runs
+   whose decisions are taken by decide. *)
+Theorem C08_decide_legal : forall U act_ge pa db,
+  (forall c, In c db -> req_wf U c = true) -> forall d,
+  root_first db = true -> lit_istrue pa (VRoot, true) = true ->
+  decide U act_ge db pa = Some (Some d) ->
+  exists c, nth_error db (N.to_nat (pd_clause d)) = Some c /\
+            decision_kind db pa c (VSol (pd_cand d), true) = Some (if is_vroot (pd_parent d) then ERootDec else EDec).
+Proof. exact decide_legal. Qed.
+
+Theorem C08_decide_classified : forall U act_ge pa db,
+  (forall c, In c db -> req_wf U c = true) -> forall soft d,
+  root_first db = true -> lit_istrue pa (VRoot, true) = true -> pd_clause d <> 0%N ->
+  decide U act_ge db pa = Some (Some d) ->
+  classify soft db pa (VSol (pd_cand d), true) (pd_clause d) = Some EProp \/
+  classify soft db pa (VSol (pd_cand d), true) (pd_clause d) = Some (if is_vroot (pd_parent d) then ERootDec else EDec).
+Proof. exact decide_classified. Qed.
